@@ -38,6 +38,12 @@ package corr
 // ties the repair packets to the media packets.  (Registered BEFORE the FEC interceptor the header extension would be
 // written after the protection was computed, on media and repair packets alike: an application error, not generated.)
 //
+// The consumer appends (every case of both components): a payload slice handed out — to the bottom writer of `flexint`,
+// media and repair packets alike, and to the caller of EncodeFec for `flexenc` — belongs to its receiver, which builds
+// the wire packet in place the way SRTP does, `append(payload, tag...)` with a 16-byte tag (c14AppendTag), right after it
+// has recorded what it was handed and before the next packet is written / looked at.  A repair packet must still be
+// what the model says whatever was done to the packets delivered before it ("every repair packet recovers …").
+//
 // With reuse=1 the caller owns ONE raw buffer and ONE rtp.Packet object: the packet is unmarshalled
 // into them, written, and the raw buffer and CSRC array are overwritten with 0xEE as soon as Write
 // returns (C13: an interceptor must not keep the caller's slices).
@@ -663,6 +669,9 @@ func c14RunEnc(t *testing.T, ops []string, o *Out) {
 			for _, fp := range fecs {
 				o.P("fec ssrc=%d pt=%d seq=%d ts=%d m=%d x=%d p=%d cc=%d payload=%s", fp.SSRC, fp.PayloadType,
 					fp.SequenceNumber, fp.Timestamp, b2i(fp.Marker), b2i(fp.Extension), b2i(fp.Padding), len(fp.CSRC), hexs(fp.Payload))
+				// the packet is the caller's now: it builds the wire packet in place (SRTP-style `append(payload, tag...)`)
+				// before it looks at the next one.  The other packets of the batch are unaffected.
+				c14AppendTag(fp.Payload)
 			}
 			nBatch++
 			for i := range fecs {
@@ -1045,6 +1054,9 @@ func c14RunInt(t *testing.T, ops []string, o *Out) {
 			nRepair++
 			o.KeepRTP(fmt.Sprintf("repair#%d/seq%d", nRepair, h.SequenceNumber), h, p)
 		}
+		// the consumer below builds the wire packet in place (SRTP-style `append(payload, tag...)`), for media and repair
+		// packets alike, before the next packet is written: packets written later are unaffected
+		c14AppendTag(p)
 		if failAt[idx] {
 			return 0, &c14InjectedError{idx}
 		}
@@ -1156,6 +1168,12 @@ func c14RunInt(t *testing.T, ops []string, o *Out) {
 			o.P("bad-op")
 		}
 	}
+}
+
+// c14AppendTag: what a consumer that was handed a payload slice may do with it — append its 16-byte authentication tag
+// (into the slice's spare capacity when there is some, as `append` does).  The bytes inside len(p) stay what they were.
+func c14AppendTag(p []byte) {
+	_ = append(p, 0xA5, 0xA5, 0xA5, 0xA5, 0xA5, 0xA5, 0xA5, 0xA5, 0xA5, 0xA5, 0xA5, 0xA5, 0xA5, 0xA5, 0xA5, 0xA5)
 }
 
 // c14NormHdr: nil and empty CSRC / extension lists are the same header.
